@@ -1160,7 +1160,12 @@ def _judge_call(ctx, out, ci, Ak, fk, spec, c, r, X, inv_ok, hpd, viol):
             ctx.feat('clause:krylov-spd')
             res = float(np.linalg.norm(b - D @ x.ravel()) / np.linalg.norm(b))
             if not np.isfinite(res) or res > 1e-6:
-                viol(f'{tag}: relative residual {res:.3e} on an SPD matrix with cond {fk["cond"]:.1f}')
+                bv = np.asarray(b).ravel()
+                # SciPy's minres forms b^T b without conjugation: a complex right-hand side with b^T b = 0 "has converged" at once
+                null_bilinear = (name == 'minres' and np.iscomplexobj(bv)
+                                 and abs(bv @ bv) <= 1e-12 * float(np.linalg.norm(bv)) ** 2)
+                viol(f'{tag}: relative residual {res:.3e} on an SPD matrix with cond {fk["cond"]:.1f}',
+                     fkey='minres-complex-rhs-zero-bilinear-form' if null_bilinear else None)
         return
     if name in RELAX:
         if not hpd:
